@@ -152,7 +152,7 @@ func (g *DependencyGraph) AddModule(moduleName, filePath string) *ModuleNode {
 	packageName := g.extractPackageName(moduleName)
 
 	// Check if this is a package (__init__.py)
-	isPackage := strings.HasSuffix(filePath, "__init__.py")
+	isPackage := filepath.Base(filePath) == "__init__.py"
 
 	node := &ModuleNode{
 		Name:         moduleName,
